@@ -10,10 +10,31 @@ DHostsAll == {"S", "D"}
 FamsAll   == {4, 6}
 Fams4     == {4}
 PlsAll    == {"ntp", "short", "badreq", "data"}
-ReqAuthsAll == AuthKinds
+\* (under the mock regime the key-mismatch classes are all the same key)
+ReqAuthsAll == AuthKinds \ {"keyOtherSrv", "keyOtherCli", "keyOtherIA"}
 \* what the network may do to a reply
 RespMutsAll == {"pass", "strip", "macFlip", "covHdr", "covPath", "covPld", "tsFlip", "rsvFlip", "uncovFlip",
                 "spiFlip", "algoFlip"}
+
+CIAs1   == {"iaC"}
+CHosts1 == {"C"}
+\* ---- key regime "drkey": sequences of authenticated requests to one listener
+ModesK  == {"server"}
+ULsK    == {"srv"}
+L4sK    == {"udp"}
+DPortsK == {"srv"}
+PlsK    == {"ntp"}
+PathsK  == {EmptyPath}
+CIAs2   == {"iaC", "iaC2"}
+CHosts2 == {"C", "C2"}
+ReqAuthsK == {"valid", "keyOtherSrv", "keyOtherCli", "keyOtherIA"}
+RespMutsK == {"pass"}
+CHostsK3 == {"C"}
+ReqAuthsK3 == {"valid", "keyOtherSrv"}
+\* only clients that authenticate are of interest here
+KeysOnly == cauth
+\* a sequence = the datagrams handled so far plus the one just finished
+EmitSeq == (pc = "done" /\ cauth) => PrintT(<<"SEQ", ToJson([steps |-> Append(hist, Observation)])>>)
 
 P1  == [kind |-> "scion", ci |-> 0, ch |-> 1, segs |-> <<Seg(TRUE, 11, <<1, 2>>)>>]
 P1s == [kind |-> "scion", ci |-> 0, ch |-> 0, segs |-> <<Seg(FALSE, 21, <<3, 4, 5>>)>>]
@@ -42,7 +63,7 @@ GenStop == pc \in {"l4", "port", "addr", "path", "auth"} /\ cauth
 Case ==
   [mode |-> mode, ul |-> req.ul, l4 |-> req.l4, dp |-> req.dp, dh |-> req.dh, sfam |-> req.sfam, dfam |-> req.dfam,
    path |-> req.path, pl |-> req.pl0, ak |-> req.ak,
-   expected |-> ExpectedReq(req), macok |-> MacOK(req, "k0"),
+   expected |-> ExpectedReq(req), macok |-> MacOK(req, ReqKey(req)),
    wact |-> PredictAct(mode, req), wauthd |-> PredictAuthd(mode, req)]
 Emit == (pc = "sent" /\ cauth) => PrintT(<<"CASE", ToJson(Case)>>)
 
@@ -55,10 +76,10 @@ ClientShaped == /\ mode = "server"
                 /\ pc \notin {"l4", "port", "addr", "path"} => req.path.kind \in {"empty", "scion"}
 E2ECase ==
   [cauth |-> cauth, path |-> req.path, ak |-> req.ak, rm |-> rm,
-   expected |-> ExpectedReq(req), macok |-> MacOK(req, "k0"),
+   expected |-> ExpectedReq(req), macok |-> MacOK(req, ReqKey(req)),
    wact |-> act, wauthd |-> authd,
    rexpected |-> IF cres = "-" THEN FALSE ELSE ExpectedResp(resp),
-   rmacok |-> IF cres = "-" THEN FALSE ELSE MacOK(resp, "k0"),
+   rmacok |-> IF cres = "-" THEN FALSE ELSE MacOK(resp, RespKey(resp)),
    wcres |-> cres]
 EmitE2E == pc = "done" => PrintT(<<"E2E", ToJson(E2ECase)>>)
 \* one run for both generators: crafted datagrams stop at "sent", client-shaped ones go on
